@@ -197,3 +197,277 @@ Print Assumptions C17_await_idempotent.
 Print Assumptions C17_late_await_never_raises.
 Print Assumptions C17_times_ordered.
 Print Assumptions C17_signals_before_exit.
+
+(** ======================================================================================
+    TIE of the helper code around `_run` (second tie, regenerated source with proofs).
+    Gen/ProcHelpers.v = the statement trees of MultiprocessingLogging, _listen, _initializer,
+    RunningProcess.__init__/_log_created/_log_exited/_format_time/interrupt/send_signal/terminate/
+    kill/__await__, _call_all, _call, run_in_process and _run, regenerated at every check by
+    translate/proc_helpers.py; Proc/HelperInterp.v interprets them over an environment [env]
+    (the child's log records before / after the sentinel, died inside a queue write, the parent's
+    logger levels and raising handlers, the with-body's outcome incl. cancellation, the future's
+    answer, the function's and the initializer's outcome, pickle.dumps / loads succeeding, pid,
+    exit code incl. positive ones, the name table, the OS state of the process, the clock).
+    Everything below is proved in Proc/HelperTie.v for ALL environments.
+    (From here on the names of Proc/HelperInterp.v shadow those of Proc/Model.v; the model's are
+    written Model.x.) *)
+From Coq Require Import String.
+From NL Require Import Proc.HelperSyntax Gen.ProcHelpers Proc.HelperInterp Proc.HelperTie.
+Open Scope string_scope.
+Open Scope list_scope.
+
+(** signatures of the translated functions, the fields of ExitedProcess, the shape of the keys of
+    _exitcode_to_name (kind c: pinned) *)
+Theorem C17_tie_signatures :
+  logging_params = ["mp_context"] /\ initializer_params = ["queue"] /\
+  rp_init_params = ["process"; "task"] /\ rp_log_exited_params = ["exited_at"] /\
+  rp_send_signal_params = ["sig"] /\ rp_await_params = [] /\ rp_interrupt_params = [] /\
+  rp_terminate_params = [] /\ rp_kill_params = [] /\
+  call_all_params = ["*funcs"] /\ call_params = ["func"] /\
+  outer_params = ["func"; "mp_context"; "initializer"; "collect_logging"] /\
+  exited_fields = ["returned"; "raised"; "process"; "process_created_at"; "process_exited_at"] /\
+  exitcode_keys_negated = true.
+Proof. exact signatures. Qed.
+
+(** the regenerated coroutine `_listen`, at EVERY state in which its closure variable `queue` is the
+    queue: completion, remaining queue and handled records are the closed form (induction over the
+    queue content); nothing else changes *)
+Theorem C17_tie_listener_closed_form : forall E s, has_queue s ->
+  listen_real E s =
+  let q := listener_queue E (putq s) in
+  (listen_result E q,
+   mkSt (vars s) (selfa s) (putq s) (listen_rest E q) (handled s ++ listen_handled E q) (trace s)
+        (listener s) (cms s) (clock s) (reads s) (cur s) (task_frame s)).
+Proof. exact listen_real_spec. Qed.
+
+(** (1) `async with MultiprocessingLogging() as initializer: BODY`, for every environment:
+    the listener task is started exactly once ... *)
+Theorem C17_tie_listener_started_once : forall E, count_started (trace (snd (client_run E))) = 1%nat.
+Proof. exact listener_started_once. Qed.
+
+(** ... on EVERY exit path of the block (BODY ends normally, raises an exception of any class, is
+    cancelled) the effects are: queue, initializer, listener started, BODY, sentinel put, and then
+    nothing more or the listener awaited to its end ... *)
+Theorem C17_tie_sentinel_on_every_exit_path : forall E,
+  exists rest,
+    trace (snd (client_run E)) =
+      [HQueueCreated; HPartial "_initializer"; HListenerStarted; HClientBody; HSentinelPut] ++ rest /\
+    (rest = [] \/ rest = [HListenerAwaited]).
+Proof. exact sentinel_on_every_exit_path. Qed.
+
+(** ... and whenever the block is left at all (normally or by an exception), no listener task is left running *)
+Theorem C17_tie_no_listener_left_when_block_exits : forall E,
+  (forall h, fst (client_run E) <> CHang h) -> listener (snd (client_run E)) <> LRunning.
+Proof. exact no_listener_left_when_block_exits. Qed.
+
+(** exactly when it is left, and how: a raising handler of the parent's logger comes out of the block;
+    a child that died inside a queue write makes `await task` wait for ever (known finding
+    hang:log-listener-never-ends); otherwise the block's outcome is BODY's *)
+Theorem C17_tie_client_outcome : forall E,
+  fst (client_run E) =
+  match first_bad E (e_before E) with
+  | Some x => CRaise x
+  | None => if e_killed E then CHang HgListener else match e_body E with None => CNormal | Some x => CRaise x end
+  end.
+Proof. exact client_outcome. Qed.
+
+Theorem C17_tie_listener_awaited_on_every_exit_path : forall E,
+  no_bad_records E -> e_killed E = false ->
+  fst (client_run E) = match e_body E with None => CNormal | Some x => CRaise x end /\
+  trace (snd (client_run E)) =
+    [HQueueCreated; HPartial "_initializer"; HListenerStarted; HClientBody; HSentinelPut] ++ [HListenerAwaited] /\
+  listener (snd (client_run E)) = LDone.
+Proof. exact listener_awaited_on_every_exit_path. Qed.
+
+Theorem C17_tie_block_exit_refuted_killed_mid_write :
+  exists E, no_bad_records E /\ e_body E = None /\
+            fst (client_run E) = CHang HgListener /\ listener (snd (client_run E)) = LRunning.
+Proof. exact block_exit_refuted_killed_mid_write. Qed.
+
+(** (2) every record put before the sentinel is handled exactly once, in order -- those the level test
+    of `_listen` lets through -- whatever BODY does; records put after the sentinel are not handled *)
+Theorem C17_tie_handled_in_order_exactly_once : forall E, no_bad_records E ->
+  handled (snd (client_run E)) = filter (fun r => Z.leb (e_loglevel E (Some (r_name r))) (r_level r)) (e_before E).
+Proof. exact handled_in_order_exactly_once. Qed.
+
+Theorem C17_tie_handled_exact : forall E, handled (snd (client_run E)) = handled_of E (e_before E).
+Proof. exact handled_exact. Qed.
+
+(** (3) `_call` returns exactly one of (value, None) / (None, wrapped exception) and calls the function
+    once; it raises only the pickling error, exactly when the exception does not survive the round
+    trip (commit 957cca5); with that answer `_run` returns (None, the pickling error) *)
+Theorem C17_tie_call_exact : forall E,
+  fst (call_run E) =
+  match e_func E with
+  | FRet v => CReturn (VTuple [VInt v; VNone])
+  | FExn x => if e_dumps E && e_loads E then CReturn (VTuple [VNone; VWrapped x]) else CRaise XPickle
+  end.
+Proof. exact call_exact. Qed.
+
+Theorem C17_tie_call_calls_once : forall E, trace (snd (call_run E)) = [HFuncCalled].
+Proof. exact call_calls_once. Qed.
+
+Theorem C17_tie_call_never_raises_when_picklable : forall E, e_dumps E = true -> e_loads E = true ->
+  forall x, fst (call_run E) <> CRaise x.
+Proof. exact call_never_raises_when_picklable. Qed.
+
+Theorem C17_tie_call_raises_only_pickling_error : forall E x, fst (call_run E) = CRaise x ->
+  x = XPickle /\ exists y, e_func E = FExn y /\ (e_dumps E = false \/ e_loads E = false).
+Proof. exact call_raises_only_pickling_error. Qed.
+
+Theorem C17_tie_call_then_run_outcome : forall E,
+  run_outcome (transport (fst (call_run E))) =
+  Some match e_func E with
+       | FRet v => (VInt v, VNone)
+       | FExn x => if e_dumps E && e_loads E then (VNone, VExn x) else (VNone, VExn XPickle)
+       end.
+Proof. exact call_then_run_outcome. Qed.
+
+(** the regenerated `_run` (exit stack, MultiprocessingLogging entered on it when collect_logging,
+    executor, submit, event, await of the future with its handlers, shutdown in a thread, return):
+    completion, effects in order, handled records, state of the listener -- for every environment
+    whose future answers with a pair / raises / never completes *)
+Theorem C17_tie_run_exact : forall E clog given_ctx ini, wf_answer (e_answer E) ->
+  obs4 (run_run E clog given_ctx ini) = run_spec E clog ini.
+Proof. exact run_exact. Qed.
+
+(** the executor has max_workers=1 and, with log collection, the initializer
+    `_call_all(logging_initializer, initializer)`, else the user's *)
+Theorem C17_tie_executor_construction : forall E (clog : bool) given_ctx ini, wf_answer (e_answer E) ->
+  In (HExecutorCreated (VInt 1) (if clog then VPartial "_call_all" [VPartial "_initializer" [VObj OQueue]; ini] else ini))
+     (trace (snd (run_run E clog given_ctx ini))).
+Proof. exact executor_construction. Qed.
+
+(** ... which in the child installs the QueueHandler BEFORE the user's initializer runs (also when
+    that one then raises) *)
+Theorem C17_tie_initializer_chain : forall E,
+  worker_init E (init_value true VUserInit) = (user_init_outcome E, [HSetLevel (VInt 10); HHandlerInstalled; HUserInit]) /\
+  worker_init E (init_value true VNone) = (CNormal, [HSetLevel (VInt 10); HHandlerInstalled]) /\
+  worker_init E (init_value false VUserInit) = (user_init_outcome E, [HUserInit]) /\
+  worker_init E (init_value false VNone) = (CNormal, []).
+Proof. exact initializer_chain. Qed.
+
+(** (6) the skeleton interpreter of Proc/Model.v is justified by the regenerated code: for every world of
+    the model and every environment realising it, the regenerated `_run` with the regenerated
+    context manager on its exit stack and the regenerated `_listen` behind `await task` produces the
+    model's trace (Listener started / sentinel / awaited included) and the model's task result.
+    Every theorem above about [run_trace] / [run_task] / [await_handle] of the model is thereby
+    about what the source says now. *)
+Theorem C17_tie_run_simulates_model : forall E w given_ctx ini, realises E w ->
+  let r := run_run E (Model.collect_logging w) given_ctx ini in
+  flat_map proj_ev (trace (snd r)) = Model.run_trace w /\ proj_result (fst r) = Model.run_task w.
+Proof. exact run_simulates_model. Qed.
+
+(** run_in_process returns a handle in every environment, created at the first clock reading, whose
+    task is `_run` over the closure [run_frame] *)
+Theorem C17_tie_start_returns_handle : forall E clog given_ctx ini,
+  let r := start E clog given_ctx ini in
+  fst r = CReturn (VHandle (handle_attrs (e_tick E 0))) /\
+  trace (snd r) = [HRunTaskCreated] /\ task_frame (snd r) = run_frame clog (ctxv given_ctx) ini /\
+  clock (snd r) = e_tick E 0 /\ reads (snd r) = 1%nat /\ selfa (snd r) = [] /\ cms (snd r) = [] /\
+  listener (snd r) = LNotStarted /\ putq (snd r) = [] /\ handled (snd r) = [].
+Proof. exact start_exact. Qed.
+
+(** (4) RunningProcess.__await__ on that handle, for EVERY exit code (None, 0, negative, positive),
+    pid and content of _exitcode_to_name *)
+Theorem C17_tie_await_exact : forall E clog given_ctx ini, wf_answer (e_answer E) ->
+  fst (await_handle E clog given_ctx ini) = await_spec E clog.
+Proof. exact await_exact. Qed.
+
+Theorem C17_tie_await_never_raises : forall E clog given_ctx ini, wf_answer (e_answer E) -> no_bad_records E ->
+  forall x, fst (await_handle E clog given_ctx ini) <> CRaise x.
+Proof. exact await_never_raises. Qed.
+
+Theorem C17_tie_await_times_ordered : forall E clog given_ctx ini v,
+  wf_answer (e_answer E) -> fst (await_handle E clog given_ctx ini) = CReturn v ->
+  exists u w t0 t1, v = VExited [("returned", u); ("raised", w); ("process", VObj OProcess);
+                                 ("process_created_at", VTime t0); ("process_exited_at", VTime t1)] /\
+                    run_outcome (e_answer E) = Some (u, w) /\ (t0 <= t1)%nat.
+Proof. exact await_yields_times_ordered. Qed.
+
+(** added hypothesis of C17_tie_await_never_raises: no handler / filter of the parent's loggers raises.
+    Without it the statement is refuted by the faithful interpretation *)
+Theorem C17_tie_await_raises_refuted_raising_log_filter :
+  exists E, wf_answer (e_answer E) /\ e_answer E = AResult (VTuple [VInt 7; VNone]) /\
+            fst (await_handle E true false VNone) = CRaise (XUser KdException 1).
+Proof. exact await_raises_refuted_raising_log_filter. Qed.
+
+(** (5) interrupt / send_signal / terminate / kill: exactly what the code does in each state *)
+Theorem C17_tie_signal_table_started : forall E q sg, e_pid E = Some (Zpos q) -> e_pstate E <> PNotCreated ->
+  sig_call E "interrupt" [] =
+    match e_pstate E with PReaped => (CRaise XProcessLookup, []) | _ => (CReturn VNone, [HOsKill (VInt 2)]) end /\
+  sig_call E "send_signal" [VInt sg] =
+    match e_pstate E with PReaped => (CRaise XProcessLookup, []) | _ => (CReturn VNone, [HOsKill (VInt sg)]) end /\
+  sig_call E "terminate" [] =
+    match e_pstate E with PReaped => (CReturn VNone, []) | _ => (CReturn VNone, [HTerminate]) end /\
+  sig_call E "kill" [] =
+    match e_pstate E with PReaped => (CReturn VNone, []) | _ => (CReturn VNone, [HKill]) end.
+Proof. exact signal_table_started. Qed.
+
+Theorem C17_tie_signal_table_not_created : forall E sg, e_pid E = None -> e_pstate E = PNotCreated ->
+  sig_call E "interrupt" [] = (CReturn VNone, []) /\
+  sig_call E "send_signal" [VInt sg] = (CReturn VNone, []) /\
+  sig_call E "terminate" [] = (CRaise XAttribute, []) /\
+  sig_call E "kill" [] = (CRaise XAttribute, []).
+Proof. exact signal_table_not_created. Qed.
+
+Theorem C17_tie_signals_never_raise_before_exit : forall E q sg m args x,
+  e_pid E = Some (Zpos q) -> (e_pstate E = PAlive \/ e_pstate E = PZombie) ->
+  In (m, args) [("interrupt", []); ("send_signal", [VInt sg]); ("terminate", []); ("kill", [])] ->
+  fst (sig_call E m args) <> CRaise x.
+Proof. exact signals_never_raise_before_exit. Qed.
+
+Theorem C17_tie_signals_refuted_after_reaping :
+  exists E, e_pid E = Some 4242%Z /\ e_pstate E = PReaped /\ fst (sig_call E "interrupt" []) = CRaise XProcessLookup.
+Proof. exact signals_refuted_after_reaping. Qed.
+
+(** the table [call] of Proc/Model.v is what the regenerated methods do *)
+Theorem C17_tie_signals_agree_with_model : forall E q m p, e_pid E = Some (Zpos q) -> e_pstate E = inj_pstate p ->
+  mres_of (sig_call E (fst (method_call m)) (snd (method_call m))) = Some (Model.call m p).
+Proof. exact signals_agree_with_model. Qed.
+
+(** non-vacuity of the tie: a child that logged three records (one below the level of the parent's
+    logger) before the sentinel and one after it, a body that is cancelled; and a realised world *)
+Example C17_tie_example_nonvacuous :
+  let E := mkEnv [mkRec 1 20 1; mkRec 1 5 2; mkRec 2 30 3] [mkRec 1 40 4] false (fun _ => 10%Z) (fun _ => None)
+                 (Some (XUser KdCancelled 0)) None (AResult (VTuple [VInt 7; VNone])) (FRet 7) true true
+                 (Some 4242%Z) (Some 3%Z) None PReaped (fun k => k) in
+  no_bad_records E /\
+  fst (client_run E) = CRaise (XUser KdCancelled 0) /\
+  handled (snd (client_run E)) = [mkRec 1 20 1; mkRec 2 30 3] /\
+  listener (snd (client_run E)) = LDone /\
+  realises E (Model.mkWorld true (Model.AValue 7) false) /\
+  fst (await_handle E true false VUserInit) =
+    CReturn (VExited [("returned", VInt 7); ("raised", VNone); ("process", VObj OProcess);
+                      ("process_created_at", VTime 0%nat); ("process_exited_at", VTime 1%nat)]).
+Proof. cbv zeta. repeat split; try (intros r; reflexivity); vm_compute; reflexivity. Qed.
+
+Print Assumptions C17_tie_signatures.
+Print Assumptions C17_tie_listener_closed_form.
+Print Assumptions C17_tie_listener_started_once.
+Print Assumptions C17_tie_sentinel_on_every_exit_path.
+Print Assumptions C17_tie_no_listener_left_when_block_exits.
+Print Assumptions C17_tie_client_outcome.
+Print Assumptions C17_tie_listener_awaited_on_every_exit_path.
+Print Assumptions C17_tie_block_exit_refuted_killed_mid_write.
+Print Assumptions C17_tie_handled_in_order_exactly_once.
+Print Assumptions C17_tie_handled_exact.
+Print Assumptions C17_tie_call_exact.
+Print Assumptions C17_tie_call_calls_once.
+Print Assumptions C17_tie_call_never_raises_when_picklable.
+Print Assumptions C17_tie_call_raises_only_pickling_error.
+Print Assumptions C17_tie_call_then_run_outcome.
+Print Assumptions C17_tie_run_exact.
+Print Assumptions C17_tie_executor_construction.
+Print Assumptions C17_tie_initializer_chain.
+Print Assumptions C17_tie_run_simulates_model.
+Print Assumptions C17_tie_start_returns_handle.
+Print Assumptions C17_tie_await_exact.
+Print Assumptions C17_tie_await_never_raises.
+Print Assumptions C17_tie_await_times_ordered.
+Print Assumptions C17_tie_await_raises_refuted_raising_log_filter.
+Print Assumptions C17_tie_signal_table_started.
+Print Assumptions C17_tie_signal_table_not_created.
+Print Assumptions C17_tie_signals_never_raise_before_exit.
+Print Assumptions C17_tie_signals_refuted_after_reaping.
+Print Assumptions C17_tie_signals_agree_with_model.
